@@ -64,6 +64,7 @@ type exStats struct {
 	FailedPresent   int            `json:"failed_present"`
 	Reopens         int            `json:"reopens"`
 	ModeFlips       int            `json:"mode_flips"`
+	SizeRejects     int            `json:"size_rejects"`
 	MaxReaders      int            `json:"max_readers"`
 	ReclaimChecks   int            `json:"reclaim_checks"`
 	BeginNoReaders  int            `json:"writer_begins_without_readers"`
@@ -484,6 +485,9 @@ func (ex *explorer) run(cs *exCase) (viol []exec.Violation) {
 							ex.st.FailedPresent++
 						}
 					}
+					if fo.FiredOp == "maxsize" {
+						ex.st.SizeRejects++
+					}
 					if fo.FiredOp != "" {
 						ex.st.FailedCommits++
 						sit += ":" + fo.FiredOp
@@ -806,6 +810,7 @@ func (c *Ctx) runExplorer(cases []*exCase, mon exMon, batch int, keep func(kind 
 			a.FailedPresent += s.FailedPresent
 			a.Reopens += s.Reopens
 			a.ModeFlips += s.ModeFlips
+			a.SizeRejects += s.SizeRejects
 			a.ReclaimChecks += s.ReclaimChecks
 			a.BeginNoReaders += s.BeginNoReaders
 			a.PagesRecycled += s.PagesRecycled
@@ -858,6 +863,7 @@ func (a *exAgg) coverage(rule string) map[string]any {
 		"rollbacks":                                  a.St.Rollbacks,
 		"failed_commits":                             a.St.FailedCommits,
 		"failed_commits_present":                     a.St.FailedPresent,
+		"commits_rejected_by_size_limit":             a.St.SizeRejects,
 		"reopens":                                    a.St.Reopens,
 		"reopens_switching_freelist_sync":            a.St.ModeFlips,
 		"max_simultaneous_readers":                   a.St.MaxReaders,
